@@ -149,8 +149,12 @@ class ArrayView(object):
         self.kind = "array"
 
     def count(self):
-        if not self.buf.ok() or self.elem_units == 0:
+        if self.elem_units == 0:
             return 0
+        if not self.buf.ok():
+            # a bit-addressed extent is static (the block is read as a whole): the element count survives missing
+            # bytes and every element is simply not Ok; a byte-addressed extent is clipped to the bytes present
+            return self.buf.size_units() // self.elem_units if self.buf.unit == 1 and self.declared_units is not None else 0
         return self.buf.size_units() // self.elem_units
 
     def element(self, i):
